@@ -212,11 +212,7 @@ def handle (op : String) (args : List String) : Option String :=
       match bytes? h, parseIdx idx, parseStore ext, bytes? name, nat? fuel, tbl.mapM parseZ with
       | some inp, some idx, some ext, some name, some fuel, some tbl =>
         let inf := tableInflate inp.length tbl
-        let entryAt : Nat → Except Err Kind := fun (off : Nat) =>
-          if off < Gen.Ingest.packHeaderLen then .error .format else     -- `assert offset >= self._header_size`
-          match parseEntry inf off (inp.drop off) with
-          | .ok (e, _) => .ok e.kind
-          | .error e => .error e.toErr
+        let entryAt : Nat → Except Err Kind := entryAtOf inf inp
         let idxf := fun (n : Bytes) => (idx.find? (fun p => p.1 == n)).map (·.2)
         match idxf name with
         | none => "err key"
